@@ -11,6 +11,10 @@ integral (e^x - 1) nu(dx) = r - d; Markov-chain drift + sum x_k rate_k = drift()
 C + S through theorems (closed_form_probe): the coded exponents and cumulants of HEM / Merton / Black-Scholes against M's exact rational
 terms, which Proofs/C10.lean proves to be the Lévy–Khintchine integral of the density resp. the derivatives of the cumulant generating
 exponent.  Edge-of-constraint parameters of every family through every probe (edge_stream / edge_probe).
+S over construction routes and orders (construction_probe): a plain Lévy model from the factory / the class / a re-initialised parameter
+object / inside a family exponential model, re-expressed in other representations and only THEN wrapped with the generic public constructor
+ExponentialOfLevyModel(spot, r, d, levy_model), converted further, wrapped again under another market; the family class built from the SAME
+parameter object; after every step every live exponential model against the martingale statements and against a freshly built model.
 """
 from __future__ import annotations
 
@@ -27,7 +31,9 @@ from ..common import w, wl, rd, rdl, close, fr, Infra
 
 from rpylib.distribution.sampling import SamplingMethod
 from rpylib.distribution.samplingfactory import create_q_vector
+from rpylib.model.levymodel.exponentialoflevymodel import ExponentialOfLevyModel
 from rpylib.model.levymodel.levymodel import LevyRepresentation as R, TruncatedLevyMeasure
+from rpylib.model.utils import models_description
 from rpylib.process.levyprocess import LevyProcess
 from rpylib.process.markovchain.markovchain import MarkovChainProcess, compute_mu_h
 from rpylib.product.payoff import Vanilla, PayoffType
@@ -45,9 +51,15 @@ RULE = ("models: defaults of HEM / Merton / VG / CGMY / Black-Scholes, every CGM
         "resp. (-12, 12), dyadic complex w = u + i v with |u| <= 10 and -v in the strip, cumulants 1, 2, 4, 6 (Black-Scholes 1..6) at "
         "t in {1, 2.5}, all compared with M's exact rational terms; walks: 1..12 random "
         "representation changes on the model's measure and on its truncation to a grid box; exponential models: spot, r, d draws; "
-        "chains: uniform / fixed-size grids with h in {0.1, 0.05, 0.02}. non-trivial = the quadrature converged (estimated error "
+        "chains: uniform / fixed-size grids with h in {0.1, 0.05, 0.02}; construction routes: for every model of the stream 2 (thorough 5) plans = "
+        "(source of the plain Lévy model in {create_levy_model factory, class(parameters=obj), re-initialised parameter object, levy_model of a "
+        "family exponential model}; 0..3 representation changes BEFORE wrapping, optionally with evaluations of the exponent / cf / cumulant "
+        "in between; generic wrapper ExponentialOfLevyModel(spot, r, d, levy_model) + the family class on the same parameter object / the "
+        "owning or re-initialised family model; 0..2 changes AFTER wrapping; optional second generic wrapper of the same Lévy model under another "
+        "(spot, r, d) after a random step), all live exponential models re-examined after every step; every other model one Markov chain on "
+        "the generic wrapper as the walk left it. non-trivial = the quadrature converged (estimated error "
         "<= 1e-12) / the walk changes representation at least once / the chain has >= 5 states / the closed-form value is not "
-        "identically 0; distinct = distinct (family, parameters, u | s | w | walk | grid)")
+        "identically 0 / the plan changes representation at least once; distinct = distinct (family, parameters, u | s | w | walk | grid | plan)")
 NOT_PROVED = [
     "VG and CGMY: levy_exponent(u) = Lévy–Khintchine integral of the density is compared with mpmath quadrature (25 digits) of the model's own "
     "density, not proved (HEM, Merton, Black-Scholes: proved, hem_levy_exponent_is_LK / merton_levy_exponent_is_LK, every complex argument "
@@ -62,6 +74,10 @@ NOT_PROVED = [
     "the measure's first-moment integrals m1(-1,1), m1(tails) are abstract numbers of M (C09's subject); float rounding of the conversions is compared at 2^-40",
     "the Markov-chain route is proved as algebra (ctmc_bookkeeping, ctmc_route_martingale over abstract integrals); that sum x_k rate_k is the chain's "
     "mean jump is C01 / C04's subject",
+    "construction routes / orders (generic wrapper after a representation change, shared Lévy model or parameter object, second wrapper): not "
+    "modelled in M (M's omega takes the ORIGINAL drift; that the wrapper reads the original and not the current triplet drift is only compared: "
+    "cf(-i) = forward, drift() = r - d - psi(-i) against a fresh model and against the quadrature of the current triplet, omega / cf against the "
+    "freshly built family model, chain drift against the martingale drift of the fresh model)",
     "Merton's first / second moment of the density = first / second derivative of the jump exponent (merton_moment_eq_deriv) is proved under C09's "
     "hypotheses on erf (derivative 2/sqrt(pi) e^{-x^2}, limits +-1); HEM's (hem_moment_eq_deriv) unconditionally",
 ]
@@ -69,6 +85,10 @@ ASSUMPTIONS = [
     "tolerances measured over seeds 0..5 with a 10x margin: exponent vs quadrature 2e-10*(1+|psi|+|u||drift terms|), cumulants 1e-9 relative to "
     "the scale of the terms, forward 1e-11 relative, drifts 1e-10, chain mean 1e-8; closed forms vs M 2^-40 (observed <= 4e-4 of it)",
     "ZERO representation is only exercised for finite-variation measures (m1(-1,1) is infinite otherwise)",
+    "construction routes: drift() / omega against a freshly built model 1e-12 * (1 + |psi(-i)| + |a| + |m1(-1,1)| + |m1(tails)|) (observed: equal), "
+    "against the quadrature of the current triplet 2e-10 of the same scale, cf 1e-11 relative; the direct-simulation statement is demanded of "
+    "every exponential model LevyProcess can simulate directly (the generic wrapper fails it on the unchanged tree: known finding "
+    "C10-generic-wrapper-direct-drift, suppressed only while process_drift() is exactly the current triplet drift)",
     "the theorems speak about hemDensity / mertonDensity of Lemmas/C09Hem.lean / C09Special.lean, the transcriptions of _HEMLevyMeasure.__call__ "
     "(hem.py:55-62) and _MertonLevyMeasure.__call__ (merton.py:44-47) that C09 compares with the code; integrals are Bochner integrals over R "
     "(the HEM density is 0 at 0, so R and R \\ {0} agree); hypotheses eta1, eta2 > 0, sigma_j > 0 are the constructors' constraints",
@@ -575,11 +595,15 @@ def routes_probe(ctx, fam, params, spot, r, d):
             ctx.fail("corr", "c10.direct_drift.model", desc, {"name": "Drivers/C10 direct vs process_drift()", "impl": pd, "model": float(mv)}, cls=cls)
 
 
-def ctmc_probe(ctx, fam, params, spot, r, d, gd):
-    em = make(fam, params, exp=True, spot=spot, r=r, d=d)
+def ctmc_probe(ctx, fam, params, spot, r, d, gd, em=None, drift_ref=None, desc=None, cls_extra=None):
+    """`em` / `drift_ref` / `desc`: an exponential model that was reached along another construction route (construction_probe); the
+    drift the chain must start from is then the martingale drift r - d - psi(-i) of a freshly built model (`drift_ref`), not the
+    examined object's own `drift()`"""
+    if em is None:
+        em = make(fam, params, exp=True, spot=spot, r=r, d=d)
     yb = ybranch(fam, params)
-    cls = dict(family=fam, ybranch=yb, grid=gd["kind"])
-    desc = dict(family=fam, params=params, spot=spot, r=r, d=d, grid=gd)
+    cls = dict(dict(family=fam, ybranch=yb, grid=gd["kind"]), **(cls_extra or {}))
+    desc = desc if desc is not None else dict(family=fam, params=params, spot=spot, r=r, d=d, grid=gd)
     try:
         if gd["kind"] == "uniform":
             g, _ = zoo.make_grid("uniform", em, gd["h"], truncation_probability=gd["tp"])
@@ -615,20 +639,22 @@ def ctmc_probe(ctx, fam, params, spot, r, d, gd):
     lo, hi = (float(x) for x in g.truncations[0])
     sxq = math.fsum(x * float(qq) for x, qq in zip(ax, q))
     # ---- S: mean per unit time of the truncated process in its declared representation, by quadrature of the density
-    #      ZERO: a0 + int_[lo,hi] x nu;  CENTER: a0;  ONEONE: a0 + int_{|x|>=1, [lo,hi]} x nu
+    #      ZERO: a0 + int_[lo,hi] x nu;  CENTER: a0;  ONEONE: a0 + int_{|x|>=1, [lo,hi]} x nu;  TILDE: ZERO if finite variation else ONEONE
     mid_q, tails_q, eq = first_moments(nu0, fv or rep0 == R.ZERO, lo=lo, hi=hi)
-    if rep0 == R.ZERO:
+    if rep0 == R.ZERO or (rep0 == R.TILDE and fv):
         mean = a0 + (mid_q or 0.0) + tails_q
     elif rep0 == R.CENTER:
         mean = a0
     else:
         mean = a0 + tails_q
     if eq <= QUAD_OK:
-        lhs, rhs = pdrift + sxq, float(em.drift()) + mean
+        lhs, rhs = pdrift + sxq, (float(em.drift()) if drift_ref is None else float(drift_ref)) + mean
         sc = 1 + abs(sxq) + abs(pdrift)
         track(ctx, "ctmc.mean", abs(lhs - rhs), 1e-8 * sc)
         if not abs(lhs - rhs) <= 1e-8 * sc:
             ctx.fail("oracle", "c10.ctmc.mean", desc, {"process_drift": pdrift, "sum_x_rate": sxq, "drift()": float(em.drift()),
+                                                       "martingale_drift_of_a_freshly_built_model": drift_ref,
+                                                       "representation_of_the_model": rep0.name, "triplet_a": a0,
                                                        "mean_of_truncated_process": mean, "lhs": lhs, "rhs": rhs,
                                                        "what": "chain drift + sum x_k rate_k != drift() + mean per unit time of the truncated Lévy process"}, cls=cls)
             return
@@ -655,6 +681,224 @@ def ctmc_probe(ctx, fam, params, spot, r, d, gd):
     if not abs(mu_h - sxq) <= 1e-12 * (1 + abs(sxq)):
         ctx.fail("corr", "c10.ctmc.mu_h", desc, {"name": "compute_mu_h vs sum x_k * create_q_vector", "mu_h": mu_h, "sum_x_rate": sxq}, cls=cls)
 
+
+# --------------------------------------- S: every construction route x every order of convert / wrap / evaluate
+LEVY_SOURCES = ["factory", "class", "reinit", "of_exp"]
+
+
+def explicit_params(fam, params):
+    """the primary parameter values of make(fam, params) (the Lévy and the exponential factories have different defaults)"""
+    plain = {k: v for k, v in params.items() if k != zoo.REINIT}
+    if fam == "bs":
+        return plain
+    p0 = make(fam, plain).parameters
+    return {k: getattr(p0, k) for k in PRIMS[fam]}
+
+
+def build_levy(fam, explicit, source, spot, r, d):
+    """a plain Lévy model along one of the public construction routes; returns (levy_model, parameter object or None,
+    [(label, exponential model, spot, r, d)] = exponential models that already share the Lévy model)"""
+    desc = models_description[zoo._TYPES[fam]]
+    if fam == "bs":
+        if source == "of_exp":
+            em0 = zoo.make_exp("bs", explicit, spot=spot, r=r, d=d)
+            return em0.levy_model, None, [("family_owner", em0, spot, r, d)]
+        return desc.levy_model(mu=0, sigma=explicit["sigma"]), None, []
+    if source == "factory":
+        return zoo.make_levy(fam, explicit), None, []
+    if source == "class":
+        p = desc.parameters(**explicit)
+        return desc.levy_model(parameters=p), p, []
+    if source == "reinit":
+        hp = dict(explicit, **{zoo.REINIT: True})
+        return zoo.make_levy(fam, hp), None, [("family_reinitialised", zoo.make_exp(fam, hp, spot=spot, r=r, d=d), spot, r, d)]
+    if source == "of_exp":
+        em0 = zoo.make_exp(fam, explicit, spot=spot, r=r, d=d)
+        return em0.levy_model, None, [("family_owner", em0, spot, r, d)]
+    raise ValueError(source)
+
+
+def draw_plan(rng, fam, fv, native, chain=None):
+    """one order of  convert* / evaluate? / wrap / (convert / evaluate / wrap again)*  on one Lévy model"""
+    allowed = [1, 2, 3, 4] if fv else [2, 3, 4]
+    pre = [rng.choice(allowed) for _ in range(rng.choice([0, 1, 1, 2, 3]))]
+    if pre and all(x == native for x in pre):
+        pre[-1] = 2 if native != 2 else 3
+    post = [rng.choice(allowed) for _ in range(rng.choice([0, 0, 1, 2]))]
+    src = rng.choice(["of_exp", "class"] if fam == "bs" else LEVY_SOURCES)
+    second = rng.choice([None, None] + list(range(len(post) + 1)))
+    return dict(source=src, pre=pre, eval_before=rng.random() < 0.5, post=post, second_wrap_after_post_step=second,
+                second_market=[rng.choice([1.0, 50.0, 2500.0]), rng.choice([0.0, 0.01, 0.04]), rng.choice([0.0, 0.02])], chain=chain)
+
+
+def construction_probe(ctx, fam, params, plan, spot, r, d, q):
+    """S, construction routes and orders: a plain Lévy model obtained from the factory / the class / a re-initialised parameter
+    object / an existing family exponential model is (optionally evaluated and) re-expressed in other representations, THEN
+    wrapped with the generic public constructor ExponentialOfLevyModel(spot, r, d, levy_model) (and, where a parameter object
+    exists, the family class is also built from the SAME parameter object), converted further, wrapped a second time under another
+    market.  After every step every live exponential model must satisfy the martingale statements of the property: cf(-i) =
+    forward; drift() = r - d - psi(-i) with psi(-i) (i) of a freshly built, never converted model and (ii) the Lévy–Khintchine
+    integral of the wrapper's CURRENT triplet by quadrature; omega / cf equal to those of the freshly built family model; the
+    direct-simulation drift (finite-activity families); at the end the Markov-chain drift on a grid (plan["chain"])."""
+    explicit = explicit_params(fam, params)
+    yb = ybranch(fam, params)
+    known_branch = fam == "cgmy" and yb in ("y<0", "y=0", "y=1")
+    desc = dict(family=fam, params=params, spot=spot, r=r, d=d, construction=plan)
+    cls0 = dict(family=fam, ybranch=yb, source=plan["source"], construction=True)
+    qq = q or dict(mid=0.0, tails=0.0, fv=True, i0=[])
+    i0s = dict(qq["i0"])
+    mom = abs(qq["mid"] or 0.0) + abs(qq["tails"] if math.isfinite(qq["tails"]) else 0.0)
+    try:
+        fresh_lm = make(fam, explicit)
+        psi_ref = complex(fresh_lm.levy_exponent(-1j))
+        native = fresh_lm.levy_triplet.representation
+        lm, pobj, live = build_levy(fam, explicit, plan["source"], spot, r, d)
+        live = [(lab, em, s_, r_, d_, "family") for lab, em, s_, r_, d_ in live]
+    except Exception as e:
+        ctx.count("c10.construction", desc, nontrivial=False, branch=fam)
+        ctx.fail("oracle", "c10.construction.raises", desc, {"stage": "build", "exception": repr(e)[:300]}, cls=cls0)
+        return
+    trip = lm.levy_triplet
+    sigma = float(trip.sigma)
+    kq = ke = None
+    if fam in ("merton", "hem"):
+        kq, ke = kappa1_quad(trip.nu)
+    elif fam == "bs":
+        kq, ke = 0.0, 0.0
+    fresh_cache = {}
+    seen_generic_direct = []      # the generic wrapper's direct-simulation drift (a recorded finding) is reported once per plan
+
+    def fresh(s_, r_, d_):
+        if (s_, r_, d_) not in fresh_cache:
+            fresh_cache[(s_, r_, d_)] = make(fam, explicit, exp=True, spot=s_, r=r_, d=d_)
+        return fresh_cache[(s_, r_, d_)]
+
+    def check(stage):
+        """every live exponential model against the property; False after the first failure"""
+        a_now, rep_now = float(trip.a), trip.representation
+        sc = 1 + abs(psi_ref) + abs(a_now) + mom
+        for lab, em, s_, r_, d_, wrapper in live:
+            cls = dict(cls0, wrapper=wrapper)
+            where = dict(desc, stage=stage, model=lab)
+            info = {"stage": stage, "model": lab, "wrapper": wrapper, "representation_now": rep_now.name, "triplet_a_now": a_now,
+                    "native_representation": native.name, "market": [s_, r_, d_]}
+            # (a) cf route
+            for t in (0.5, 2.0):
+                v = complex(em.log_characteristic_function(t, -1j))
+                fwd = s_ * math.exp((r_ - d_) * t)
+                track(ctx, "construction.forward", abs(v - fwd), 1e-11 * fwd)
+                if not abs(v - fwd) <= 1e-11 * fwd:
+                    ctx.fail("oracle", "c10.construction.forward", dict(where, t=t),
+                             dict(info, what="log_characteristic_function(t, -i) != S0 exp((r-d) t) for an exponential model reached along this "
+                                             "construction route", value=[v.real, v.imag], forward=fwd), cls=dict(cls, check="forward"))
+                    return False
+            # (b) the drift handed to the simulation routes: drift() = r - d - psi(-i)
+            dr = float(em.drift())
+            track(ctx, "construction.drift", abs(dr + psi_ref.real - (r_ - d_)), 1e-12 * sc)
+            if not abs(dr + psi_ref.real - (r_ - d_)) <= 1e-12 * sc:
+                ctx.fail("oracle", "c10.construction.drift", where,
+                         dict(info, what="drift() + psi(-i) != r - d, psi the exponent of a freshly built (never converted) Lévy model with the "
+                                         "same parameters", drift=dr, psi=[psi_ref.real, psi_ref.imag], r_minus_d=r_ - d_,
+                              omega=float(em.omega)), cls=dict(cls, check="drift"))
+                return False
+            if (-1j) in i0s and not known_branch:
+                lk = lk_value(-1j, a_now, sigma, rep_now, qq, i0s[-1j])
+                tol = 2e-10 * (1 + abs(lk) + abs(a_now) + mom)
+                track(ctx, "construction.drift_lk", abs(dr + lk.real - (r_ - d_)), tol)
+                if not abs(dr + lk.real - (r_ - d_)) <= tol:
+                    ctx.fail("oracle", "c10.construction.drift", where,
+                             dict(info, what="drift() + psi(-i) != r - d, psi(-i) = a + sigma^2/2 + integral(e^x - 1 - x h(x)) nu(dx) by quadrature of "
+                                             "the density with the wrapper's CURRENT triplet drift and representation", drift=dr,
+                                  levy_khintchine_quadrature=[lk.real, lk.imag], r_minus_d=r_ - d_, omega=float(em.omega)),
+                             cls=dict(cls, check="drift_lk"))
+                    return False
+            # (c) indistinguishable from the freshly built family model
+            fe = fresh(s_, r_, d_)
+            u = 0.7 - 0.3j
+            va, vb = complex(em.log_characteristic_function(1.0, u)), complex(fe.log_characteristic_function(1.0, u))
+            track(ctx, "construction.fresh", abs(float(em.omega) - float(fe.omega)), 1e-12 * sc)
+            if not (abs(float(em.omega) - float(fe.omega)) <= 1e-12 * sc and abs(va - vb) <= 1e-11 * (abs(vb) + 1e-300) * (1 + sc)):
+                ctx.fail("oracle", "c10.construction.fresh", where,
+                         dict(info, what="omega / characteristic function differ from those of the family model freshly built at the same values",
+                              omega=float(em.omega), omega_fresh=float(fe.omega), cf=[va.real, va.imag], cf_fresh=[vb.real, vb.imag]),
+                         cls=dict(cls, check="fresh"))
+                return False
+            # (d) direct simulation (finite-activity families: jump_increment exists, LevyProcess simulates the model directly)
+            if kq is not None and ke <= QUAD_OK:
+                pd = float(em.process_drift())
+                lhs = pd + 0.5 * sigma * sigma + kq
+                times = np.array([0.0, 0.5, 2.0])
+                path = np.asarray(LevyProcess(em).deterministic_path(times), dtype=float)
+                path_ok = np.allclose(path, math.log(s_) + pd * times, rtol=0, atol=1e-13 * (1 + abs(math.log(s_))))
+                if wrapper == "family":
+                    track(ctx, "construction.direct", abs(lhs - (r_ - d_)), 1e-10)
+                if not (abs(lhs - (r_ - d_)) <= 1e-10 and path_ok) and not (wrapper == "generic" and seen_generic_direct):
+                    seen_generic_direct.append(wrapper == "generic")
+                    ctx.fail("oracle", "c10.construction.direct", where,
+                             dict(info, what="direct simulation: process_drift() + sigma^2/2 + integral (e^x - 1) nu(dx) != r - d (or the deterministic "
+                                             "path is not x0 + process_drift() t)", process_drift=pd, kappa1_by_quadrature=kq, sum=lhs,
+                                  r_minus_d=r_ - d_, forward_rate_error=lhs - (r_ - d_), deterministic_path=path.tolist()),
+                             cls=dict(cls, check="direct"),
+                             mirrors_model=bool(wrapper == "generic" and path_ok and pd == a_now))
+                    if wrapper != "generic":
+                        return False
+        return True
+
+    changes = 0
+    try:
+        if plan["eval_before"]:
+            lm.levy_exponent(-1j), lm.characteristic_function(1.0, 0.7), lm.cumulant.cumulant1(1.0)
+        for rv in plan["pre"]:
+            changes += trip.representation != REPS[rv]
+            trip.set_representation(REPS[rv])
+            if plan["eval_before"]:
+                lm.levy_exponent(-1j)
+        live.append(("wrap1", ExponentialOfLevyModel(spot=spot, r=r, d=d, levy_model=lm), spot, r, d, "generic"))
+        if pobj is not None:       # the family class built from the SAME parameter object as the (converted) Lévy model
+            live.append(("family_same_parameters", models_description[zoo._TYPES[fam]].exponential_of_levy_model(
+                spot=spot, r=r, d=d, parameters=pobj), spot, r, d, "family"))
+        ok = check("wrapped")
+        second = plan.get("second_wrap_after_post_step")
+        for i, rv in enumerate([None] + list(plan["post"])):
+            if not ok:
+                break
+            if rv is not None:
+                changes += trip.representation != REPS[rv]
+                trip.set_representation(REPS[rv])
+                ok = check(f"post[{i - 1}]")
+            if ok and second == i:
+                s2, r2, d2 = plan["second_market"]
+                live.append(("wrap2", ExponentialOfLevyModel(spot=s2, r=r2, d=d2, levy_model=lm), s2, r2, d2, "generic"))
+                ok = check(f"second_wrap_after[{i}]")
+        if ok:
+            now = complex(lm.levy_exponent(-1j))
+            if not abs(now - psi_ref) <= 1e-12 * (1 + abs(psi_ref) + abs(float(trip.a)) + mom):
+                ok = False
+                ctx.fail("oracle", "c10.construction.fresh", desc,
+                         {"what": "levy_exponent(-i) of the wrapped and converted Lévy model != that of a freshly built one", "now": [now.real, now.imag],
+                          "fresh": [psi_ref.real, psi_ref.imag], "representation_now": trip.representation.name}, cls=dict(cls0, check="exponent"))
+    except Infra:
+        raise
+    except Exception as e:
+        ctx.count("c10.construction", desc, nontrivial=False, branch=fam)
+        ctx.fail("oracle", "c10.construction.raises", desc, {"exception": repr(e)[:300], "representation_now": trip.representation.name}, cls=cls0)
+        return
+    ctx.count("c10.construction", desc, nontrivial=changes >= 1,
+              branch=f"{fam}:{plan['source']}:{'pre' if plan['pre'] else ''}{'+post' if plan['post'] else ''}{'+second' if second is not None else ''}")
+    if not ok:
+        return
+    # ---- cf route (C): omega of the generic wrapper is M's omega of the ORIGINAL drift
+    em1 = [em for lab, em, *_ in live if lab == "wrap1"][0]
+    a_orig = float(lm._original_drift)
+    k1 = complex(lm.levy_exponent_pure_jump(1.0)).real
+    om = rd(ctx.lean(f"omega {w(a_orig)} {w(sigma)} {w(k1)}"))
+    if not close(em1.omega, om, scale=abs(fr(a_orig)) + fr(sigma) ** 2 / 2 + abs(fr(k1)) + Fraction(1, 2 ** 60)):
+        ctx.fail("corr", "c10.omega.model", desc, {"name": "Drivers/C10 omega vs ExponentialOfLevyModel.omega (generic wrapper)",
+                                                   "impl": float(em1.omega), "model": float(om)}, cls=cls0)
+    # ---- Markov-chain route on the generic wrapper as it stands now (declared representation = whatever the walk left)
+    if plan.get("chain") and fam != "bs" and not (fam == "cgmy" and yb == "y<0"):
+        ctmc_probe(ctx, fam, params, spot, r, d, plan["chain"], em=em1, drift_ref=(r - d) - psi_ref.real, desc=desc,
+                   cls_extra=dict(source=plan["source"], construction=True, wrapper="generic"))
 
 
 # ------------------------------------------------- C + S through theorems: closed forms as exact rational terms
@@ -899,6 +1143,7 @@ def edge_probe(ctx, fam, params, restr, rng):
         if q is not None and q["i0"]:
             native = make(fam, params).levy_triplet.representation.value
             exponent_after_walk_probe(ctx, fam, params, [2 if native != 2 else 3, 4, native], q, spot, r, d)
+            construction_probe(ctx, fam, params, draw_plan(rng, fam, q["fv"], native), spot, r, d, q)
     if fam in ("hem", "merton", "bs"):
         ss, ws = closed_form_inputs(rng, fam, make(fam, params), 3, 3)
         closed_form_probe(ctx, fam, params, ss, ws)
@@ -927,6 +1172,14 @@ def run(ctx):
                     wk[0] = 2 if native != 2 else 3
                 exponent_after_walk_probe(ctx, fam, params, wk, q, spot, r, d)
         routes_probe(ctx, fam, params, spot, r, d)
+        if q is not None:
+            # every public construction route x every order of convert / evaluate / wrap (generic wrapper, shared parameter objects)
+            for j in range(ctx.n(2, 5)):
+                chain = None
+                if j == 0 and fam != "bs" and i % 2 == 0:
+                    chain = (dict(kind="uniform", h=rng.choice([0.1, 0.05]), tp=0.99) if rng.random() < 0.5
+                             else dict(kind="fixed", h=rng.choice([0.1, 0.05]), nb=rng.choice([9, 21])))
+                construction_probe(ctx, fam, params, draw_plan(rng, fam, q["fv"], native, chain), spot, r, d, q)
         if fam == "bs":
             continue
         # the same model after a parameter history (edit, initialisation(), edit back, initialisation(): what calibration does)
@@ -966,6 +1219,9 @@ def replay(ctx, rec):
         ss = [d["s"]] if "s" in d else []
         ws = [tuple(d["w"])] if "w" in d else []
         closed_form_probe(ctx, fam, params, ss, ws, ts=(d["t"],) if "t" in d else ())
+    elif d.get("construction"):
+        q = exponent_probe(ctx, fam, params, [-1j])
+        construction_probe(ctx, fam, params, d["construction"], d["spot"], d["r"], d["d"], q)
     elif d.get("history"):
         q = exponent_probe(ctx, fam, params, [-1j, 0.7] + ([complex(*d["u"])] if "u" in d else []))
         if q is not None:
@@ -990,6 +1246,8 @@ def search(ctx):
         q = exponent_probe(ctx, fam, params, [-1j, 0.7])
         if q is not None:
             exponent_after_walk_probe(ctx, fam, params, draw_walk(rng, fv)[:4], q, 100.0, 0.02, 0.01)
+            for _ in range(3):
+                construction_probe(ctx, fam, params, draw_plan(rng, fam, fv, m.levy_triplet.representation.value), 100.0, 0.02, 0.01, q)
         for _ in range(6):
             walk_probe(ctx, fam, params, draw_walk(rng, fv) + [m.levy_triplet.representation.value])
         routes_probe(ctx, fam, params, 100.0, 0.02, 0.01)
